@@ -119,8 +119,11 @@ def unpack(hashed: str) -> PacketLike:
 
 
 def class_escape(s: str) -> str:
+    # NOTE a literal key made of @s gets one more @, so that "@" is free
+    s = re.sub(r'"(@+)":', r'"@\1":', s)
     return s.replace(r'"__class__":', '"@":')
 
 
 def class_unescape(s: str) -> str:
-    return s.replace(r'"@":', r'"__class__":')
+    s = s.replace(r'"@":', r'"__class__":')
+    return re.sub(r'"@(@+)":', r'"\1":', s)
